@@ -158,6 +158,10 @@ func coerceTo(c px.Context, path path, typ px.Type, value px.Value) px.Value {
 		}
 		panic(px.MismatchError(labelFunc, t, value))
 	case px.ObjectType:
+		if t.Constructor(c) == nil {
+			// e.g. the default Object type: nothing to create an instance with (and no attribute info)
+			panic(px.MismatchError(labelFunc, t, value))
+		}
 		ai := t.AttributesInfo()
 		if oh, ok := value.(*Hash); ok {
 			el := make([]*HashEntry, 0, oh.Len())
